@@ -60,5 +60,13 @@ def rootsClean (cfg : Config) : Bool :=
 def routeIdsDistinct (cfg : Config) : Bool :=
   cfg.services.all (fun s => decide ((s.routes.map (·.id)).Nodup))
 
+/-- WebService ids are pairwise distinct (so that "the same service id" means "the same WebService") -/
+def serviceIdsDistinct (cfg : Config) : Bool := decide ((cfg.services.map (·.id)).Nodup)
+
+/-- `routeIdsDistinct` alone is too weak to make the pair (service id, route id) identify a route:
+    two WebServices may share an id.  `Spec.idsDistinct` (Spec/Admits.lean) is the conjunction. -/
+theorem idsDistinct_eq (cfg : Config) :
+    idsDistinct cfg = (serviceIdsDistinct cfg && routeIdsDistinct cfg) := rfl
+
 end Spec
 end Restful
